@@ -60,6 +60,8 @@ def cell_strategy(col):
         one = float_cell(k)
     elif k == 'E':
         one = st.sampled_from(col['labels'])
+    elif k == 'V':
+        one = text(12, in_array=col['alen'] > 0)
     else:
         one = text(col['width'], in_array=col['alen'] > 0)
     if col['alen']:
@@ -118,7 +120,7 @@ def fix_last_column(tables):
     """A backslash ending the last column of a row is a line continuation (outside the guarantee)."""
     for t in tables:
         c = t['cols'][-1]
-        if c['kind'] in ('S', 'U') and not c['alen']:
+        if c['kind'] in ('S', 'U', 'V') and not c['alen']:
             for r in t['rows']:
                 r[-1] = r[-1].rstrip('\\')
 
@@ -150,6 +152,8 @@ def np_dtype(cols, unicode_ok=False):
         k = c['kind']
         if k in ('S', 'E'):
             base = 'S%d' % c['width']
+        elif k == 'V':
+            base = 'S12'
         elif k == 'U':
             base = 'U%d' % c['width']
         else:
@@ -164,7 +168,7 @@ def from_json_cell(col, v):
         return [from_json_cell(dict(col, alen=0), x) for x in v]
     if k in ('f4', 'f8'):
         return float(v)
-    if k in ('S', 'E'):
+    if k in ('S', 'E', 'V'):
         return v.encode('ascii')
     return v
 
@@ -236,6 +240,11 @@ def compare_table(got, table, check, label, raw=False):
             if k == 'S':
                 check(g.dtype.itemsize == c['width'], label + ':string-width',
                       lambda: dict(col=c['name'], got=g.dtype.itemsize, want=c['width']))
+            if k == 'V' and n:
+                flat = [x for r in table['rows'] for x in (r[j] if c['alen'] else [r[j]])]
+                want_w = max(len(x) for x in flat)
+                check(g.dtype.itemsize == want_w, label + ':char[]-width-not-longest-value',
+                      lambda: dict(col=c['name'], got=g.dtype.itemsize, want=want_w))
         if n == 0:
             continue
         want = [from_json_cell(c, r[j]) for r in table['rows']]
@@ -315,3 +324,44 @@ def classify_tables(tables):
 
 NONTRIVIAL_LABELS = {'str-empty', 'str-blank', 'str-hash', 'str-semicolon', 'str-brace', 'extreme-int', 'nonfinite-float',
                      'denormal-float', 'huge-float', 'array-col', 'enum-col', 'multi-table', 'has-header', 'unicode-col'}
+
+
+CTYPE = {'i2': 'short', 'i4': 'int', 'i8': 'long', 'f4': 'float', 'f8': 'double'}
+
+
+def render_simple(tables, hdr):
+    """A plain, canonical rendering of tables (incl. unsized char[] columns, kind 'V') and header pairs as parameter-file text."""
+    out = ['#%yanny', '# written by the harness']
+    for k, v in hdr:
+        out.append('%s %s' % (k, pair_text(v)))
+    for t in tables:
+        for c in t['cols']:
+            if c['kind'] == 'E':
+                out.append('typedef enum {\n' + ',\n'.join('    ' + l for l in c['labels']) + '\n} %s;' % c['etype'].upper())
+    for t in tables:
+        out.append('typedef struct {')
+        for c in t['cols']:
+            k = c['kind']
+            ty = CTYPE.get(k, 'char' if k in ('S', 'V') else c.get('etype', '').upper())
+            d = ' %s %s' % (ty, c['name'])
+            if c['alen']:
+                d += '[%d]' % c['alen']
+            if k == 'S':
+                d += '[%d]' % c['width']
+            if k == 'V':
+                d += '[]'
+            out.append(d + ';')
+        out.append('} %s;' % t['name'].upper())
+
+    def cell(c, v):
+        if isinstance(v, list):
+            return '{' + ' '.join(cell(dict(c, alen=0), x) for x in v) + '}'
+        if c['kind'] in ('S', 'V'):
+            return '"' + v + '"'
+        if c['kind'] in ('f4', 'f8'):
+            return repr(float(v))
+        return str(v)
+    for t in tables:
+        for r in t['rows']:
+            out.append(' '.join([t['name'].upper()] + [cell(c, v) for c, v in zip(t['cols'], r)]))
+    return '\n'.join(out) + '\n'
